@@ -386,6 +386,30 @@ def signature(m, npts=2, seed=0):
     return sig
 
 
+def param_points(m, npts, seed):
+    """The parameter vectors `signature` evaluates attributes at, plus the all-NaN vector last."""
+    n = int(sum(v.symbol.numel() for v in m.parameters))
+    return points(n, npts, seed * 7 + 1) + [[float("nan")] * n]
+
+
+def eval_at_params(m, expr, pts):
+    """Element values (column-major, exact strings) of an MX expression of the parameters at each point."""
+    import casadi as ca
+    psyms = [v.symbol for v in m.parameters]
+    f = ca.Function("evp", [ca.veccat(*psyms)] if psyms else [], [ca.MX(expr)])
+    return [dm_vals(f.call([ca.DM(p)] if psyms else [])[0])["v"] for p in pts]
+
+
+def embed_py(value):
+    """Elements of a plain attribute value inside the metadata matrix: `ca.MX(ca.DM(value))`."""
+    import casadi as ca
+    try:
+        value = ca.DM(value)
+    except Exception:
+        pass
+    return dm_vals(ca.DM(ca.MX(value)))["v"] if not isinstance(value, ca.DM) else dm_vals(value)["v"]
+
+
 def diff(a, b, path="", out=None, limit=6):
     """Paths where two signatures differ (ignoring the top-level `class`)."""
     out = [] if out is None else out
@@ -442,3 +466,165 @@ def outcome(fn, *a, **kw):
         if isinstance(e, (KeyboardInterrupt, SystemExit)):
             raise
         return False, type(e).__name__, str(e).split("\n")[0][:200]
+
+
+outcome_base = outcome   # also classifies BaseException subclasses (simulated crashes)
+
+
+# ---------------------------------------------------------------------------------------------
+# a real model folder + library folders under a controlled clock (C20, C21)
+# ---------------------------------------------------------------------------------------------
+REASONS = [("out of date", "out-of-date"), ("incomplete or damaged", "damaged"), ("different version", "version"),
+           ("different compiler options", "options"), ("CasADi version", "casadi-version"), ("incompatible OS", "os")]
+
+
+def reason_of(msg):
+    for pat, r in REASONS:
+        if pat in msg:
+            return r
+    return "other"
+
+
+class CacheWorld:
+    """Folders 0 (model folder), 1, 2, ... on disk; a logical clock whose ticks become file
+    modification times (`base_ns + tick * step_ns`); a spy on `api.load_model`; and the log of
+    the same history in the vocabulary of the Lean model (`model_ops`)."""
+
+    BASE_NS = 1_600_000_000 * 10**9
+
+    def __init__(self, root, name="M", nfolders=3, step_ns=10**6, version_marker=False):
+        from pymoca.backends.casadi import api
+        self.api = api
+        self.root, self.name, self.step_ns = root, name, step_ns
+        self.dirs = [os.path.join(root, "f%d" % i) for i in range(nfolders)]
+        for d in self.dirs:
+            os.makedirs(d, exist_ok=True)
+        self.clock = 0
+        self.model_ops = []
+        self.contents = {}
+        self.versions = {}
+        self.spy_log = []
+        self._orig_load = api.load_model
+        self._orig_version = api.__version__
+        self.version_id(api.__version__)
+        api.load_model = self._spy
+        self._orig_compile = api._compile_model
+        if version_marker:
+            # "another pymoca version" = another version string *and* a compiler whose output differs:
+            # the compiled model carries the version that compiled it in an observable the cache stores
+            def compile_marked(folder, name, opts, _orig=api._compile_model):
+                m = _orig(folder, name, opts)
+                m.outputs = list(m.outputs) + ["__compiled_by__" + str(api.__version__)]
+                return m
+            api._compile_model = compile_marked
+
+    # ---- plumbing -------------------------------------------------------------------------
+    def close(self):
+        self.api.load_model = self._orig_load
+        self.api._compile_model = self._orig_compile
+        self.api.__version__ = self._orig_version
+
+    def _spy(self, folder, name, opts):
+        try:
+            m = self._orig_load(folder, name, opts)
+        except self.api.InvalidCacheError as e:
+            self.spy_log.append("compiled:" + reason_of(str(e)))
+            raise
+        except FileNotFoundError:
+            self.spy_log.append("compiled:no-file")
+            raise
+        except BaseException as e:  # noqa: BLE001
+            self.spy_log.append("raised:" + type(e).__name__)
+            raise
+        self.spy_log.append("hit")
+        return m
+
+    def cache_path(self):
+        return os.path.join(self.dirs[0], self.name + ".pymoca_cache")
+
+    def ns(self, tick):
+        return self.BASE_NS + tick * self.step_ns
+
+    def tick(self, d=1):
+        self.clock += d
+        return self.clock
+
+    def content_id(self, text):
+        return self.contents.setdefault(text, len(self.contents) + 1)
+
+    def version_id(self, v):
+        return self.versions.setdefault(v, len(self.versions) + 1)
+
+    def cache_stat(self):
+        try:
+            st = os.stat(self.cache_path())
+            return (st.st_ino, st.st_mtime_ns, st.st_size)
+        except FileNotFoundError:
+            return None
+
+    # ---- the operations of a history ---------------------------------------------------------
+    def write(self, folder, rel, text, dt=1):
+        t = self.tick(dt)
+        write_file(os.path.join(self.dirs[folder], rel), text, self.ns(t))
+        self.model_ops.append(["write", folder, rel, t, self.content_id(text)])
+        return t
+
+    def set_version(self, v):
+        self.api.__version__ = v
+        self.model_ops.append(["version", self.version_id(v)])
+
+    def model_opts(self, opts, libs):
+        """User options -> the option record of the Lean model (defaults merged as pymoca does)."""
+        from pymoca.backends.casadi._options import _merge_default_options
+        o = _merge_default_options(dict(opts))
+        special = ("library_folders", "mtime_check", "cache", "codegen", "expand_mx")
+        return {"libs": list(libs), "mtime_check": bool(o["mtime_check"]), "cache": bool(o["cache"]),
+                "codegen": bool(o["codegen"]), "expand_mx": bool(o["expand_mx"]),
+                "rest": sorted([k, repr(v)] for k, v in o.items() if k not in special)}
+
+    def real_opts(self, opts, libs):
+        o = dict(opts)
+        o["library_folders"] = [self.dirs[i] for i in libs]
+        return o
+
+    def transfer(self, opts, libs):
+        """One real transfer_model call.  Returns (ok, model-or-class, msg, kind) and logs the model op;
+        a cache file written by the call gets the next tick as its modification time."""
+        before = self.cache_stat()
+        self.spy_log.clear()
+        ok, m, msg = outcome(self.api.transfer_model, self.dirs[0], self.name, self.real_opts(opts, libs))
+        kind = self.spy_log[0] if self.spy_log else "direct"
+        after = self.cache_stat()
+        now = self.clock + 1
+        size = 0
+        if after is not None and after != before:
+            self.tick()
+            set_mtime(self.cache_path(), self.ns(now))
+            size = after[2]
+        if ok or not kind.startswith("compiled"):
+            self.model_ops.append(["transfer", self.model_opts(opts, libs), now, size])
+        else:
+            # the call died between the failed load and the end of save_model (compile or save raised):
+            # in the model that is an interrupted transfer — before `open`, or with `size` bytes on disk
+            self.model_ops.append(["crashed", self.model_opts(opts, libs), now, size,
+                                   "beforeOpen" if after == before else size])
+        return ok, m, msg, kind
+
+    def reference(self, opts, libs):
+        """Fresh compile of the current sources with the current options (no cache involved): the
+        options as transfer_model rewrites them, minus caching."""
+        o = self.real_opts(opts, libs)
+        cache, codegen = bool(o.get("cache")), bool(o.get("codegen"))
+        if cache and codegen:
+            cache = False
+        if cache:
+            o["expand_mx"] = True
+        o["cache"] = False
+        o["codegen"] = False
+
+        def compile_and_build():
+            m = self.api.transfer_model(self.dirs[0], self.name, o)
+            for fn in FUNCS:       # save_model needs the four functions: a model without them is not a model here
+                getattr(m, fn + "_function")
+            return m
+        return outcome(compile_and_build)
